@@ -594,6 +594,8 @@ func (w *Writer) countStmtExprRefs(stmts []ir.Statement, refCounts []int) {
 			for _, c := range k.Cases {
 				w.countStmtExprRefs(c.Body, refCounts)
 			}
+		case ir.StmtBlock:
+			w.countStmtExprRefs(k.Block, refCounts)
 		case ir.StmtLoop:
 			w.countStmtExprRefs(k.Body, refCounts)
 			w.countStmtExprRefs(k.Continuing, refCounts)
